@@ -420,8 +420,13 @@ func (u *Unit) verifyRoot() {
 	st.ghost["epoch"] = u.fresh("epoch0", SInt)
 	for _, g := range u.cs.GhostVars {
 		gs := SInt
-		if g.Sort == "bool" {
+		switch g.Sort {
+		case "bool":
 			gs = SBool
+		case "loc->int":
+			gs = ArraySort(SLoc, SInt)
+		case "loc->bool":
+			gs = ArraySort(SLoc, SBool)
 		}
 		st.ghost[g.Name] = u.declareOnce("ghost:"+g.Name, gs)
 	}
@@ -467,6 +472,9 @@ func (u *Unit) verifyRoot() {
 		}
 		if ct != nil {
 			for _, c := range ct.Ensures {
+				if u.implOf != "" && u.mentionsGhost(c.E) {
+					continue // ghost protocol clauses define the meaning of the interface's ghost state; not an obligation of implementations
+				}
 				ctx := fr.newEvalCtx(ex.st, fr.entry, names)
 				v, err := ctx.eval(c.E)
 				if err != nil || v.t.Sort != SBool {
@@ -498,6 +506,9 @@ func (u *Unit) verifyRoot() {
 		}
 	}
 	u.exitCount = len(exits)
+	for _, ex := range exits {
+		u.exitPCs = append(u.exitPCs, ex.st.pc)
+	}
 }
 
 // checkFrame: every heap the function changed must be covered by its modifies clause (for pre-existing objects).
